@@ -132,7 +132,7 @@ func runHandlers(h *HCase) (string, string) {
 			case "oidc":
 				email, _ := cl["email"].(string)
 				body = map[string]any{"csr": csrPEM(email, nil, []string{email}), "ott": presented}
-			case "jwk", "jwk2", "":
+			case "jwk", "jwk2", "x5c", "":
 				body = map[string]any{"csr": csrPEM(sub, []string{sub}, nil), "ott": presented}
 			case "awst", "awsr": // the common name must be the token's subject
 				body = map[string]any{"csr": csrPEM(sub, []string{"vm.example.com"}, nil), "ott": presented}
@@ -332,8 +332,11 @@ func genHandlers(r *c.Rng) *HCase {
 			ts.Prov = "renewtok"
 			ts.Issuer = c.Pick(r, []string{"", "", "acme", "k8s", "oidc"})
 		case 8:
-			ts.Prov = c.Pick(r, []string{"oidc", "k8s", "jwk2", "azt", "gcpt", "azr", "gcpr", "awst", "awsr"})
+			ts.Prov = c.Pick(r, []string{"oidc", "k8s", "jwk2", "azt", "gcpt", "azr", "gcpr", "awst", "awsr", "x5c", "x5c", "x5c"})
 			ts.Aud = "sign"
+			if ts.Prov == "x5c" {
+				ts.Aud = c.Pick(r, []string{"sign", "revoke", "sshsign"})
+			}
 		case 9:
 			ts.Aud = "sshsign"
 			ts.Defect = c.Pick(r, []string{"badsig", "expired", "aud", "kid"})
